@@ -15,6 +15,7 @@ import (
 	"path/filepath"
 	"regexp"
 	"sort"
+	"strconv"
 	"strings"
 	"sync"
 	"sync/atomic"
@@ -145,25 +146,39 @@ var Hung int64
 
 // Generate runs the current front end and code generator in process, under a watchdog.
 func Generate(text string, v Variant, file string) (src []byte, genErr string) {
+	src, _, genErr = generateWatched(text, v, file, true)
+	return src, genErr
+}
+
+// GenerateWarned is Generate without -strict: the generator prints its warnings to standard
+// error and still writes the parser. The warnings are captured and returned. os.Stderr is
+// swapped for the duration of the call: not for concurrent use.
+func GenerateWarned(text string, v Variant, file string) (src []byte, warnings string, genErr string) {
+	return generateWatched(text, v, file, false)
+}
+
+func generateWatched(text string, v Variant, file string, strict bool) (src []byte, warnings string, genErr string) {
 	type res struct {
-		src []byte
-		err string
+		src       []byte
+		warn, err string
 	}
 	done := make(chan res, 1)
+	saved := os.Stderr
 	go func() {
-		s, e := generate(text, v, file)
-		done <- res{s, e}
+		s, w, e := generate(text, v, file, strict)
+		done <- res{s, w, e}
 	}()
 	select {
 	case r := <-done:
-		return r.src, r.err
+		return r.src, r.warn, r.err
 	case <-time.After(GenerateTimeout):
+		os.Stderr = saved
 		atomic.AddInt64(&Hung, 1)
-		return nil, fmt.Sprintf("generator did not terminate within %v", GenerateTimeout)
+		return nil, "", fmt.Sprintf("generator did not terminate within %v", GenerateTimeout)
 	}
 }
 
-func generate(text string, v Variant, file string) (src []byte, genErr string) {
+func generate(text string, v Variant, file string, strict bool) (src []byte, warnings string, genErr string) {
 	defer func() {
 		if r := recover(); r != nil {
 			genErr = fmt.Sprintf("generator panic: %v", r)
@@ -172,17 +187,43 @@ func generate(text string, v Variant, file string) (src []byte, genErr string) {
 	}()
 	res := fe.Parse(text, v.Inline, v.Switch, v.NoAST)
 	if res.Panic != "" {
-		return nil, "front end panic: " + res.Panic
+		return nil, "", "front end panic: " + res.Panic
 	}
 	if res.Err != nil {
-		return nil, "front end rejects the grammar: " + strings.TrimSpace(res.Err.Error())
+		return nil, "", "front end rejects the grammar: " + strings.TrimSpace(res.Err.Error())
 	}
-	res.Tree.Strict = true
+	res.Tree.Strict = strict
 	var buf bytes.Buffer
-	if err := res.Tree.Compile(file, v.Args(), &buf); err != nil {
-		return buf.Bytes(), "Compile: " + err.Error()
+	if strict {
+		if err := res.Tree.Compile(file, v.Args(), &buf); err != nil {
+			return buf.Bytes(), "", "Compile: " + err.Error()
+		}
+		return buf.Bytes(), "", ""
 	}
-	return buf.Bytes(), ""
+	pr, pw, err := os.Pipe()
+	if err != nil {
+		return nil, "", "pipe: " + err.Error()
+	}
+	got := make(chan string, 1)
+	go func() {
+		b, _ := io.ReadAll(pr)
+		got <- string(b)
+	}()
+	saved := os.Stderr
+	os.Stderr = pw
+	func() {
+		defer func() {
+			os.Stderr = saved
+			pw.Close()
+		}()
+		err = res.Tree.Compile(file, v.Args(), &buf)
+	}()
+	warnings = <-got
+	pr.Close()
+	if err != nil {
+		return buf.Bytes(), warnings, "Compile: " + err.Error()
+	}
+	return buf.Bytes(), warnings, ""
 }
 
 // Lab is a built batch.
@@ -426,11 +467,16 @@ func (l *Lab) Runnable(name string) bool {
 
 // Outcome of one request.
 type Outcome struct {
-	Resp    proto.Resp
-	Hang    bool   // watchdog fired (reported as inconclusive, never as a violation)
-	Died    string // the worker died while serving this request (stderr tail)
-	BadResp string // the response could not be decoded: a harness problem, never a violation
-	Race    string // race detector report seen on the worker's stderr while serving the request
+	Resp proto.Resp
+	Hang bool // watchdog fired (reported as inconclusive, never as a violation)
+	// Diverged > 0 (always together with Hang): when the watchdog fired the worker process had
+	// itself burnt this many seconds of CPU time on the request. Unlike elapsed time this does
+	// not depend on how busy the machine is; callers that know a step bound for the request
+	// (the reference interpreter's) may read it as "does not terminate".
+	Diverged float64
+	Died     string // the worker died while serving this request (stderr tail)
+	BadResp  string // the response could not be decoded: a harness problem, never a violation
+	Race     string // race detector report seen on the worker's stderr while serving the request
 }
 
 type worker struct {
@@ -498,6 +544,29 @@ func (w *worker) kill() {
 	}
 }
 
+// DivergeCPU is the CPU time (seconds) a single request must have burnt before a watchdog hit
+// is reported as Diverged.
+const DivergeCPU = 15.0
+
+// procCPU returns user+system CPU seconds of a process (0 when unknown).
+func procCPU(pid int) float64 {
+	b, err := os.ReadFile(fmt.Sprintf("/proc/%d/stat", pid))
+	if err != nil {
+		return 0
+	}
+	i := bytes.LastIndexByte(b, ')')
+	if i < 0 {
+		return 0
+	}
+	f := strings.Fields(string(b[i+1:]))
+	if len(f) < 13 {
+		return 0
+	}
+	ut, _ := strconv.ParseFloat(f[11], 64)
+	st, _ := strconv.ParseFloat(f[12], 64)
+	return (ut + st) / 100
+}
+
 var raceRe = regexp.MustCompile(`(?s)WARNING: DATA RACE.*?==================`)
 
 // Run serves all requests with up to `workers` worker processes.
@@ -558,15 +627,41 @@ func (l *Lab) Run(reqs []proto.Req, workers int, timeout time.Duration) []Outcom
 						return
 					}
 				}(w)
-				select {
-				case r := <-ch:
-					if r.err != nil {
-						time.Sleep(50 * time.Millisecond)
-						outs[i].Died = "worker died: " + r.err.Error() + "\n" + drvTail(w.stderr.String())
-						w.kill()
-						w = nil
-						continue
+				started, cpu0 := time.Now(), procCPU(w.cmd.Process.Pid)
+				var got *rd
+			wait:
+				for {
+					select {
+					case r := <-ch:
+						got = &r
+						break wait
+					case <-time.After(250 * time.Millisecond):
+						el := time.Since(started)
+						if el < timeout {
+							continue
+						}
+						// slow machine or a parser that does not terminate? Ask how much CPU
+						// time the process itself has used, and give a starved one more time.
+						if cpu := procCPU(w.cmd.Process.Pid) - cpu0; cpu >= DivergeCPU {
+							outs[i].Diverged = cpu
+							break wait
+						}
+						if el > 6*timeout {
+							break wait
+						}
 					}
+				}
+				if got == nil {
+					outs[i].Hang = true
+					w.kill()
+					w = nil
+				} else if r := *got; r.err != nil {
+					time.Sleep(50 * time.Millisecond)
+					outs[i].Died = "worker died: " + r.err.Error() + "\n" + drvTail(w.stderr.String())
+					w.kill()
+					w = nil
+					continue
+				} else {
 					if err := json.Unmarshal(r.line, &outs[i].Resp); err != nil {
 						outs[i].BadResp = err.Error()
 					}
@@ -583,10 +678,6 @@ func (l *Lab) Run(reqs []proto.Req, workers int, timeout time.Duration) []Outcom
 							w.stderr.Reset()
 						}
 					}
-				case <-time.After(timeout):
-					outs[i].Hang = true
-					w.kill()
-					w = nil
 				}
 				if reqs[i].Cold && w != nil {
 					w.kill()
